@@ -4,6 +4,7 @@ package all
 import (
 	_ "package-operator.run/internal/packages/zzverif/checks/c01"
 	_ "package-operator.run/internal/packages/zzverif/checks/c03"
+	_ "package-operator.run/internal/packages/zzverif/checks/c04"
 	_ "package-operator.run/internal/packages/zzverif/checks/c11"
 	_ "package-operator.run/internal/packages/zzverif/checks/c12"
 	_ "package-operator.run/internal/packages/zzverif/checks/c17"
